@@ -4,6 +4,8 @@ import (
 	"encoding/json"
 	"flag"
 	"fmt"
+	"os"
+	"verif/harness/internal/muxdrv"
 
 	"verif/harness/internal/clientdrv"
 )
@@ -21,6 +23,26 @@ func init() {
 		marker := fs.String("marker", "", "file that names the scenario in progress (crash attribution)")
 		fs.Parse(args)
 		n, err := clientdrv.RunAll(*script, *out, *marker)
+		fmt.Printf("scenarios=%d\n", n)
+		return err
+	})
+}
+
+func init() {
+	register("e2e-run", func(args []string) error {
+		fs := flag.NewFlagSet("e2e-run", flag.ExitOnError)
+		script := fs.String("script", "", "JSON file with end-to-end scenarios")
+		out := fs.String("out", "trace.ndjson", "trace output")
+		fs.Parse(args)
+		b, err := os.ReadFile(*script)
+		if err != nil {
+			return err
+		}
+		var scs []muxdrv.E2E
+		if err := json.Unmarshal(b, &scs); err != nil {
+			return err
+		}
+		n, err := muxdrv.RunE2EAll(scs, *out)
 		fmt.Printf("scenarios=%d\n", n)
 		return err
 	})
